@@ -112,6 +112,23 @@ CHECKS["C14"] = dict(
     note="Trusted: Coq kernel + VM, translator; CPython float repr / decimal / '%.1f' formatting are modelled (a float is its "
          "shortest decimal form), not verified.", design="4/C14")
 
+TABLE_NOTE = ("Trusted: Coq kernel + VM, harness/translate.py (dataclass fields / annotations / defaults, enum members, schemas "
+              "as data; cross-checked by an independent introspection walk over the real classes and schema files).")
+CHECKS["C11"] = dict(
+    technique="Rocq table theorems (vm_compute of a class/schema walk + lifting lemmas) over tables re-translated every run",
+    text="C11_walk_clean: the walk of every request/response class against its schema -- field sets both ways, mandatory => "
+         "required, omittable => optional, annotation shapes through lists, unions and nested data types, every data type "
+         "placed -- finds nothing; lifted to ClassAgrees for every class of the four tables. The same walk is done by "
+         "introspection on the real classes and the schema files, which yields the failing class/field as replay.",
+    note=TABLE_NOTE, design="4/C11")
+CHECKS["C12"] = dict(
+    technique="Rocq table theorems (vm_compute + lifting) over re-translated enum / class / schema tables",
+    text="C12_members16/201: every legal wire value at every enum-annotated position (found by walking annotations and "
+         "schemas in parallel) is a member of the annotated class; C12_no_dead: no member is dead except the open findings "
+         "carried explicitly from known_findings.jsonl; C12_actions: Action values = request schemas = response schemas = "
+         "request classes = response classes, per version.",
+    note=TABLE_NOTE, design="4/C12")
+
 PENDING_REASON = "check not built yet in this round (work in progress; see DESIGN.md section 9)"
 
 
